@@ -127,6 +127,51 @@ def _balanced_bs(arg):
     return out
 
 
+def _tdm_pairs(arg):
+    """worker: time-domain programs that differ in one per-bin value, in the number of concurrent modes or not at all; the abstract
+    programs handed to TLC are their explicit loops (the unrolled circuits, projected)"""
+    import warnings
+    warnings.filterwarnings("ignore")
+    import strawberryfields as sf
+    from strawberryfields import ops
+    from . import sfx, absproj
+    A = {"a345": [[3, 5], [4, 5]], "a435": [[4, 5], [3, 5]], "pi/2": [[0, 1], [1, 1]]}
+
+    def mk(arr, N, plain=False):
+        vals = [sfx.to_float("angle", A[a]) for a in arr]
+        prog = sf.TDMProgram(N)
+        with prog.context(vals) as (p, q):
+            ops.Sgate(sfx.to_float("sq", [4, 3]), 0.0) | q[N - 1]
+            ops.Rgate(p[0]) | q[N - 1]
+            ops.BSgate(sfx.to_float("angle", A["a345"]), 0.0) | (q[0], q[N - 1])
+        return prog
+
+    def loop(prog):
+        c = sf.TDMProgram(prog.N)      # unroll a twin, the compared objects stay rolled
+        return c
+    specs = [(("a345", "a435"), 2), (("a345", "pi/2"), 2), (("a345", "a435"), 3), (("a345", "a435", "a345"), 2)]
+    built = []
+    for arr, N in specs:
+        twin = mk(arr, N)
+        twin.unroll()
+        built.append((arr, N, absproj.project_circuit(twin.circuit)))
+    out = []
+    for i, (a1, n1, abs1) in enumerate(built):
+        for j, (a2, n2, abs2) in enumerate(built):
+            p, q = mk(a1, n1), mk(a2, n2)
+            r = [bool(p == q), bool(q == p)]
+            nmax = max(n1, n2) + max(len(a1), len(a2))
+            out.append({"kind": "pair", "n": 3, "p": abs1, "q": abs2, "eqpq": r[0], "eqqp": r[1], "evpq": False, "evqp": False,
+                        "same": False, "perm": [], "e1": False, "e2": False, "tdm": "%s N=%d vs %s N=%d" % (list(a1), n1, list(a2), n2)})
+    # a plain program with the same commands as a (rolled) time-domain program is another thing
+    p = mk(("a345", "a435"), 2)
+    plain = sf.Program(2)
+    plain.circuit = list(p.circuit)
+    out.append({"kind": "pair", "n": 3, "p": built[0][2], "q": [], "eqpq": bool(p == plain), "eqqp": bool(plain == p), "evpq": False, "evqp": False,
+                "same": False, "perm": [], "e1": False, "e2": False, "tdm": "time-domain program vs plain program with its one-bin commands"})
+    return out
+
+
 def diff_kind(p, q):
     if len(p) != len(q):
         short_, long_ = (p, q) if len(p) < len(q) else (q, p)
@@ -182,6 +227,8 @@ def c18(chk):
             for lst in common.pmap(_rebinding, [0], chunksize=1):
                 cases += lst
             for lst in common.pmap(_balanced_bs, [0], chunksize=1):
+                cases += lst
+            for lst in common.pmap(_tdm_pairs, [0], chunksize=1):
                 cases += lst
         chk.evaluations += tot["pairs"]
         verdicts = tracecases.validate(chk, "TraceEq", cases, "eq%d" % n, chunk=5000,
